@@ -4,6 +4,7 @@ package main
 import (
 	"fmt"
 	"strconv"
+	"strings"
 	"sync"
 	"time"
 
@@ -114,6 +115,30 @@ func run(c *vk.Ctx, can *rig.Canary, sc scen, idx int) {
 		for time.Now().Before(end) {
 			sendAt(N / 2)
 		}
+	case "resend-replay-mid-period":
+		// the peer asks for a retransmission N/2 after the previous outbound message: the replay is an outbound message too
+		for time.Now().Before(end) {
+			target := lastOut().Add(N / 2)
+			if d := time.Until(target); d > 0 {
+				time.Sleep(d)
+			}
+			l.Conn.Feed(l.Peer.Resend(1, 1))
+			c.Count("resend_requests", 1)
+			time.Sleep(N/2 + N/4)
+		}
+	case "handler-send-mid-period":
+		// the application sends through the handler with its own header (as the Session.Send documentation suggests for custom fields)
+		for k := 0; time.Now().Before(end); k++ {
+			target := lastOut().Add(N / 2)
+			if d := time.Until(target); d > 0 {
+				time.Sleep(d)
+			}
+			m := fixgen.CreateMarketDataRequestReject("own-header")
+			m.HeaderBuilder().SetFieldMsgSeqNum(9000 + k).SetFieldSenderCompID(rig.LibID).SetFieldTargetCompID(rig.PeerID).SetFieldSendingTime("20240101-00:00:00.000")
+			_ = l.H.Send(m)
+			c.Count("app_sends", 1)
+			time.Sleep(N/2 + N/4)
+		}
 	}
 	tEnd := time.Now()
 	close(stop)
@@ -153,12 +178,12 @@ func run(c *vk.Ctx, can *rig.Canary, sc scen, idx int) {
 				}
 				// A Heartbeat whose timer expired (N after the message before the previous one) while an
 				// application send was in flight is concurrent with that send: either wire order is legitimate.
-				concurrentWithSend := gap <= 50*time.Millisecond+3*jit && i >= 2 && prevGap >= N-20*time.Millisecond-3*jit
+				concurrentWithSend := gap <= 100*time.Millisecond+5*jit && i >= 2 && prevGap >= N-20*time.Millisecond-3*jit
 				if concurrentWithSend {
 					c.Count("heartbeats_concurrent_with_a_send(not judged)", 1)
 				}
 				if gap < N-20*time.Millisecond-3*jit && !concurrentWithSend {
-					c.Violate(fmt.Sprintf("C08/heartbeat-too-early/%s/N=%d/%s", sc.role, sc.n, sc.pattern), fmt.Sprintf("%s: unsolicited Heartbeat (#%d, 34=%s) only %v after the previous outbound message; N = %v", desc, i, fr.Seq, gap.Round(time.Millisecond), N), replay)
+					c.Violate(fmt.Sprintf("C08/heartbeat-too-early/%s/N=%d/%s", sc.role, sc.n, sc.pattern), fmt.Sprintf("%s: unsolicited Heartbeat (#%d, 34=%s) only %v after the previous outbound message; N = %v; trace: %s", desc, i, fr.Seq, gap.Round(time.Millisecond), N, trace(frames, i)), replay)
 				}
 			}
 		}
@@ -183,7 +208,7 @@ func run(c *vk.Ctx, can *rig.Canary, sc scen, idx int) {
 
 func main() {
 	c := vk.Init("C08")
-	c.Rule("full-stack sessions, both roles, negotiated N in {1,2,3} (quick) + {5,20} (thorough); the peer keeps the session alive with a Heartbeat every 0.8 N; application send patterns relative to the previous outbound message: none (idle for many periods), one send N-0.15 s / N / N+0.15 s / N/2 after it, bursts of 20 followed by 2.3 N of idleness. Oracle on write timestamps at the peer end: every gap between consecutive outbound messages (and up to the end of the observation) <= N + N/10 + slack, slack = 100 ms + 3 x measured scheduler oversleep; every Heartbeat without TestReqID follows the previous outbound message by >= N - 20 ms. distinct = (role, N, pattern); non-trivial = at least one unsolicited Heartbeat observed")
+	c.Rule("full-stack sessions, both roles, negotiated N in {1,2,3} (quick) + {5,20} (thorough); the peer keeps the session alive with a Heartbeat every 0.8 N; application send patterns relative to the previous outbound message: none (idle for many periods), one send N-0.15 s / N / N+0.15 s / N/2 after it, bursts of 20 followed by 2.3 N of idleness, a retransmission requested by the peer N/2 after it, an application send through the handler (own header) N/2 after it. Oracle on write timestamps at the peer end: every gap between consecutive outbound messages (and up to the end of the observation) <= N + N/10 + slack, slack = 100 ms + 3 x measured scheduler oversleep; every Heartbeat without TestReqID follows the previous outbound message by >= N - 20 ms. distinct = (role, N, pattern); non-trivial = at least one unsolicited Heartbeat observed")
 	c.Assume("single-logon histories; a run whose canary measured more than 250 ms oversleep is inconclusive")
 	can := rig.StartCanary()
 	defer can.Stop()
@@ -196,7 +221,7 @@ func main() {
 	var scs []scen
 	for _, role := range []rig.Role{rig.Acceptor, rig.Initiator} {
 		for _, n := range ns {
-			for _, p := range []string{"idle", "send-just-before", "send-at-deadline", "send-just-after", "bursts-then-idle", "half-period-sends"} {
+			for _, p := range []string{"idle", "send-just-before", "send-at-deadline", "send-just-after", "bursts-then-idle", "half-period-sends", "resend-replay-mid-period", "handler-send-mid-period"} {
 				scs = append(scs, scen{role, n, p, periods[n]})
 			}
 		}
@@ -212,4 +237,20 @@ func main() {
 	wg.Wait()
 	c.Set("max_scheduler_oversleep_ms", float64(can.Max())/1e6)
 	c.Finish()
+}
+
+func trace(frames []rig.Frame, i int) string {
+	var sb strings.Builder
+	from := i - 4
+	if from < 0 {
+		from = 0
+	}
+	for k := from; k <= i && k < len(frames); k++ {
+		d := time.Duration(0)
+		if k > 0 {
+			d = frames[k].T.Sub(frames[k-1].T)
+		}
+		fmt.Fprintf(&sb, "[#%d 35=%s 34=%s +%v] ", k, frames[k].Type, frames[k].Seq, d.Round(100*time.Microsecond))
+	}
+	return sb.String()
 }
